@@ -244,6 +244,9 @@ func c15ReplayCLI(a vh.Args, o *vh.Oracle, r *vh.Result, c *c15Case) error {
 		return err
 	}
 	defer e.stop()
+	if strings.HasPrefix(c.Desc, "history-") { // the answer depends on what the process served before: replay the history
+		return c15HistoryRequests(a, o, r, e, vh.NewRand(a.Seed).Fork())
+	}
 	return c15DoCLI(a, o, r, e, c)
 }
 
@@ -442,10 +445,12 @@ func c15HistoryRequests(a vh.Args, o *vh.Oracle, r *vh.Result, e *c15Env, rng *v
 		"twice-w": {"Authorization: Bearer wrong", "Authorization: " + cfg.Auth},
 	}
 	step := 0
+	var hist []string
 	do := func(who, method, target string, body []byte) error {
 		step++
 		c := &c15Case{Cfg: cfg, Level: "cli", StateSeed: a.Seed, Method: method, Target: target, Headers: hdr[who], BodyHex: vh.Hex(body),
-			Desc: fmt.Sprintf("history-step-%d-%s", step, who)}
+			Desc: fmt.Sprintf("history-step-%d-%s", step, who), History: append([]string{}, hist...)}
+		hist = append(hist, fmt.Sprintf("%s %s %q", method, target, hdr[who]))
 		r.Dist("history:" + who + "/" + method)
 		return c15DoCLI(a, o, r, e, c)
 	}
